@@ -226,7 +226,10 @@ Inductive op :=
 | OpVerify (depth : nat) (pk : bytes) (period : N) (msg sig : bytes)  (* NewSumKesFromBytes + Verify *)
 | OpVerifyLast (dperiod : Z) (flip_sig flip_msg flip_pk : option N)
                                             (* verify the remembered signature with one thing changed *)
-| OpComponents (body sig hot : bytes) (kes_period slot spkp : N).
+| OpComponents (body sig hot : bytes) (kes_period slot spkp : N)
+| OpHeldSig (i : nat).                      (* current contents of the slice returned by the i-th successful Sign:
+                                               values are immutable here, so the model answers with the value at
+                                               the time; the implementation answers with what the slice holds now *)
 
 Local Open Scope string_scope.
 
@@ -248,7 +251,8 @@ Section run.
 
   Record rstate := mk_rstate {
     r_sk : skey; r_spent : option skey;
-    r_last : option (N * bytes * bytes)      (* period, message, signature of the last Sign *)
+    r_last : option (N * bytes * bytes);     (* period, message, signature of the last Sign *)
+    r_sigs : list bytes                      (* every signature returned so far, oldest first *)
   }.
 
   Definition render_opt (o : option bytes) : string :=
@@ -265,7 +269,7 @@ Section run.
     | OpSign p m =>
       let r := sign tsign sk p m in
       (match r with
-       | Some s => mk_rstate sk (r_spent st) (Some (p, m, s))
+       | Some s => mk_rstate sk (r_spent st) (Some (p, m, s)) (r_sigs st ++ [s])%list
        | None => st
        end, render_opt r)
     | OpSignSpent p m =>
@@ -275,7 +279,7 @@ Section run.
            end)
     | OpUpdate =>
       match update tH tpk sk with
-      | Some (sk', old) => (mk_rstate sk' (Some old) (r_last st), "ok")
+      | Some (sk', old) => (mk_rstate sk' (Some old) (r_last st) (r_sigs st), "ok")
       | None => (st, "err")
       end
     | OpVerify d pk p m s => (st, render_bool (verify tH tverify d pk p m s))
@@ -287,6 +291,8 @@ Section run.
                             (flip_opt (public_key tH tpk sk) fp) p' (flip_opt m fm) (flip_opt s fs))
            | None => "nolast"
            end)
+    | OpHeldSig i =>
+      (st, match nth_error (r_sigs st) i with Some s => to_hex s | None => "nosig" end)
     | OpComponents body sig hot kp slot spkp =>
       (st, match verify_components tH tverify body sig hot kp slot spkp with
            | Some b => render_bool b
@@ -304,7 +310,7 @@ Section run.
   Definition run_history (depth : nat) (seed : bytes) (ops : list op) : list string :=
     match keygen tH tpk depth seed with
     | None => ["keygen-err"]
-    | Some (sk, pk) => ("keygen:" ++ to_hex pk) :: run_ops (mk_rstate sk None None) ops
+    | Some (sk, pk) => ("keygen:" ++ to_hex pk) :: run_ops (mk_rstate sk None None []) ops
     end.
 End run.
 
